@@ -490,8 +490,12 @@ int vnadata_resize(vnadata_t *vdp, vnadata_parameter_type_t type,
 int vnadata_init(vnadata_t *vdp, vnadata_parameter_type_t type,
 	int rows, int columns, int frequencies)
 {
-    (void)vnadata_resize(vdp, VPT_UNDEF, 0, 0, 0);
-    (void)vnadata_set_all_z0(vdp, VNADATA_DEFAULT_Z0);
+    if (vnadata_resize(vdp, VPT_UNDEF, 0, 0, 0) == -1) {
+	return -1;
+    }
+    if (vnadata_set_all_z0(vdp, VNADATA_DEFAULT_Z0) == -1) {
+	return -1;
+    }
     return vnadata_resize(vdp, type, rows, columns, frequencies);
 }
 
